@@ -43,9 +43,16 @@ impl ProtoFmt for std::net::SocketAddr {
 /// Constructs a duration from the (untrusted) wire representation.
 /// Unlike `time::Duration::new`, it returns an error instead of panicking on overflow.
 fn duration_from_parts(seconds: i64, nanos: i32) -> anyhow::Result<time::Duration> {
-    time::Duration::seconds(seconds)
+    let d = time::Duration::seconds(seconds)
         .checked_add(time::Duration::nanoseconds(nanos.into()))
-        .context("duration overflow")
+        .context("duration overflow")?;
+    // `build()` normalizes a negative sub-second part by borrowing one second,
+    // which is impossible when the whole seconds are already `i64::MIN`.
+    anyhow::ensure!(
+        d.whole_seconds() > i64::MIN || d.subsec_nanoseconds() >= 0,
+        "duration overflow"
+    );
+    Ok(d)
 }
 
 impl ProtoFmt for time::Utc {
